@@ -8,6 +8,8 @@ bcrypt library, whose checker raises for passwords longer than 72 bytes).  A gen
                       CONNECT host:80 (with a presentation) followed by plain HTTP requests inside the tunnel
   reverse / transparent: origin-form requests with an Authorization presentation
   socks5:             RFC 1928 greeting + RFC 1929 username/password + CONNECT + plain HTTP requests
+Before the traffic the `proxyauth` option may go through a failing runtime update (bad spec, missing file) or a failing reload
+of the same htpasswd spec after the file was left malformed / deleted; the option keeps its value, so enforcement must continue.
 Presentations: valid (plain, ':' in the password, non-ASCII UTF-8, empty password, lower/upper-case scheme, several SP),
 wrong password / user / swapped, missing, empty, scheme only, bad base64, no colon, Bearer, right credentials in the wrong
 header, validator-hostile ones (73-300 byte passwords, NUL inside the password, very long user names, invalid UTF-8
@@ -34,6 +36,7 @@ from mitmproxy.addons.proxyauth import ProxyAuth
 from mitmproxy.proxy import layers
 
 from vf import sansio
+from vf.core import Inconclusive
 from vf.gen import c08_peers as P
 from vf.ref import c20_basic as rb
 from vf.ref import http1 as ref
@@ -44,7 +47,7 @@ ENGINE = "sansio"
 BUDGET = {"quick": (500, 18), "thorough": (30000, 220)}
 WORKERS = {"quick": 4, "thorough": 16}
 REQUIRED = ["safety", "answer", "accept", "strip", "total", "path.regular-abs", "path.connect", "path.reverse", "path.transparent", "path.socks5", "path.upstream", "validator.single", "validator.any", "validator.htpasswd", "bcrypt.user_presented", "bcrypt.long_password",
-            "option.unauthenticated_chunked_body_reaches_stream_threshold", "option.oversized_body", "safety.no_upstream_connection"]
+            "option_history.reload-malformed", "option_history.update_failed", "option.unauthenticated_chunked_body_reaches_stream_threshold", "option.oversized_body", "safety.no_upstream_connection"]
 TECHNIQUE = "runtime monitoring: sans-io conversations with the real ProxyAuth addon, reference Basic parser/validators, tag + credential search on the wire"
 RULE = (
     "case = (validator kind, entry path, conversation of 1-6 items each with a credential presentation kind, segmentation, schedule); "
@@ -281,6 +284,34 @@ def run_case(ctx, tctx, chain):
         body_size_limit=None if size_limit is None else {64: "64", 200: "200", 1024: "1k"}[size_limit],
         store_streamed_bodies=store_streamed,
     )
+    # runtime history of the proxyauth option before the traffic: failing updates (bad spec, missing file) and failing RELOADS of
+    # the same htpasswd spec after the file was left malformed / removed.  options.proxyauth keeps its value (rollback), so
+    # authentication stays configured and the validator in force is still the one the reference models.
+    hist = r.choice(["none", "none", "none", "bad-spec", "missing-file", "reload-malformed", "reload-malformed", "reload-deleted"])
+    if hist.startswith("reload") and validator.kind != "htpasswd":
+        hist = r.choice(["none", "bad-spec", "missing-file"])
+    ctx.count("option_history." + hist)
+    if hist != "none":
+        if hist == "bad-spec":
+            attempt = r.choice(["nocolonspec", "ldap:broken", "@"])
+        elif hist == "missing-file":
+            attempt = "@" + os.path.join(tmpdir(), "does-not-exist-%d" % r.getrandbits(30))
+        else:
+            attempt = optval
+            hp = optval[1:]
+            if hist == "reload-malformed":
+                with open(hp, "w", encoding="utf-8") as fh:
+                    fh.write(r.choice(["userwithouthash\n", "bob:plaintextpassword\n", ":{SHA}abc\n", "alice:$1$md5crypt$unsupported\n"]))
+            else:
+                os.unlink(hp)
+        try:
+            tctx.options.update(proxyauth=attempt)
+        except Exception:  # OptionsError (also from the rollback's re-configure)
+            ctx.count("option_history.update_failed")
+        else:
+            raise Inconclusive(f"update proxyauth={attempt!r} was expected to fail")
+        if tctx.options.proxyauth != optval:
+            raise Inconclusive("options.proxyauth was not rolled back")
     proxy_hdr = "Proxy-Authorization" if fam in ("regular", "upstream") else "Authorization"
 
     def pres_kind(p_valid):
@@ -449,7 +480,7 @@ def run_case(ctx, tctx, chain):
             if t:
                 up_msgs[t.group(0)] = m
             pos = npos
-    witness = {"path": path, "mode": mode, "options": {"stream_large_bodies": stream_thr, "body_size_limit": size_limit, "store_streamed_bodies": store_streamed}, "proxyauth": optval if validator.kind != "htpasswd" else {"htpasswd_pairs": pairs}, "segmentation": segmode,
+    witness = {"path": path, "mode": mode, "proxyauth_option_history": hist, "options": {"stream_large_bodies": stream_thr, "body_size_limit": size_limit, "store_streamed_bodies": store_streamed}, "proxyauth": optval if validator.kind != "htpasswd" else {"htpasswd_pairs": pairs}, "segmentation": segmode,
                "items": [(it["what"], it.get("pres") and it["pres"]["kind"], it["expect"], it["raw"][:200]) for it in items],
                "down": down[:1200], "upstream": up_all[:800], "hooks": d.hook_names()[:40]}
 
@@ -580,7 +611,7 @@ def run_case(ctx, tctx, chain):
 
     kinds = sorted({(it.get("pres") or {}).get("kind") or "none" for it in items})
     special = any(it.get("pres") and it["pres"].get("pair") and (":" in it["pres"]["pair"][1] or any(ord(c) > 127 for c in "".join(it["pres"]["pair"]))) for it in items)
-    sig = (path, validator.kind, tuple(kinds), min(n_acc, 3), min(n_ref, 3), stream_thr, size_limit, tuple(sorted({x.get("framing", "none") for x in items})))
+    sig = (path, validator.kind, hist, tuple(kinds), min(n_acc, 3), min(n_ref, 3), stream_thr, size_limit, tuple(sorted({x.get("framing", "none") for x in items})))
     sample = {"path": path, "proxyauth": optval if validator.kind != "htpasswd" else "htpasswd(5 users)", "items": [(it["what"], (it.get("pres") or {}).get("kind"), it["expect"]) for it in items], "client_got": down[:160]}
     return sig, (n_acc > 0 and n_ref > 0) or special, sample
 
